@@ -137,9 +137,14 @@ impl<R: Read> PgnRawParser<R> {
     }
 
     fn skip_to_next_line(&mut self) -> Result<(), PgnRawParserError> {
-        while self.pop_byte()? != b'\n' {};
-
-        Ok(())
+        loop {
+            match self.pop_byte() {
+                // end of input ends the last line
+                Ok(b'\n') | Err(ReadingFromClosedRead) => return Ok(()),
+                Ok(_) => {}
+                Err(error) => return Err(error),
+            }
+        }
     }
 
     fn read_until(&mut self, byte: u8) -> Result<String, PgnRawParserError> {
@@ -163,7 +168,12 @@ impl<R: Read> PgnRawParser<R> {
         while cur_byte != b' ' && cur_byte != b'\n' {
             result.push(cur_byte as char);
             self.skip_byte()?;
-            cur_byte = self.peek_byte()?;
+            cur_byte = match self.peek_byte() {
+                Ok(byte) => byte,
+                // end of input ends the token
+                Err(ReadingFromClosedRead) => break,
+                Err(error) => return Err(error),
+            };
         }
 
         Ok(result)
